@@ -128,3 +128,91 @@ CHECKS["C18"] = dict(
          "cannot run under the installed xarray.",
     technique="Lean 4 theorems (any table, any ordered key type) + differential correspondence with Lean-evaluated discrete and sign-test spec",
 )
+
+CHECKS["C01"] = dict(
+    text=("Lean theorems over executable reader models (Model/Readers.lean), for meshes of ANY size/width/node count: "
+          "UxVerif.C01.ugrid_roundtrip / topology_roundtrip (decode (encode d w m) = ok (pad w m) for every dialect meeting the decidable "
+          "DialectOK/TopoOK: start_index 0/1/absent, fill int/NaN/NaN-attr/none, any dtype, extra width), mpas_primal_roundtrip (any padding "
+          "content), mpas_dual_roundtrip, mpas_zeros_reindex (supplied tables carried over entrywise), esmf_roundtrip, exodus_roundtrip/"
+          "exodus_count (any number/order of blocks), icon_roundtrip, geos_corners/geos_order/geos_count/geos_in_range/geos_cyclic, "
+          "scrip_positions/scrip_nodes_nodup/scrip_in_range, vertices_positions, rings_positions (decoded corner positions = source positions, "
+          "padding only at the end), spec_pad/stdForm_pad (the result is C02's standard form), normLon_range/congr/idem, setRange_ok/"
+          "setRange_congr over any ordered field with floor. Proved as-is counterexamples document the seven repaired reader defects. Tie: a "
+          "differential run (~1500 sources quick, ~18000 thorough: in-memory datasets, NetCDF files re-opened by path, arrays, dicts, GeoJSON) "
+          "in which the Lean predicate Readers.Spec is evaluated by the driver on the implementation's face_node_connectivity (node numbers "
+          "mapped to source nodes by position), the Lean model must equal the implementation up to the start corner, and the harness-side "
+          "encoding is compared with Lean's encodeUgrid/encodeTopology; 16 usable sample files judged against an independent raw decoding. "
+          "dtype, _FillValue, lon/lat ranges, n_node, carried-over centres/tables/areas are run-time assertions (test level)."),
+    note=_TB + "Modelled, not verified: netCDF4/xarray decoding (_FillValue masking), geopandas/pyogrio parsing, NumPy astype/np.unique/reshape, "
+         "float rounding of rad2deg and xyz->lonlat (positions compared with chord tolerance 1e-7). GEOS-CS reference orientation is the "
+         "lattice perimeter order. MPAS dual only for closed meshes of valence >= 3. Known finding: SCRIP repeated-last-corner padding is kept "
+         "as a corner. Sample files > 3600 faces: Spec on sampled chunks in the quick tier. The malformed-input stream of DESIGN §3 was not built.",
+    technique="Lean 4 theorems (per-dialect round trips, index arithmetic, ordered-field laws) over hand models + differential correspondence with Lean-evaluated spec",
+)
+
+CHECKS["C11"] = dict(
+    text=("Lean theorems over distance lists of ANY length and any total transitive comparison: the brute-force model "
+          "(stable sort + take k / filter d<=r) satisfies the k-nearest and radius specifications (knn_meets_spec, "
+          "radius_meets_spec: right length, valid distinct indices, nearest first, every non-returned element at least as far); "
+          "the Boolean the driver evaluates on the IMPLEMENTATION's output is that specification (knnSpecB_iff, radiusSpecB_iff) "
+          "and, ties aside, it has exactly one solution (knn_unique). Over R: chord = 2 sin(theta/2) strictly increasing on [0,pi] "
+          "(chord_mono), Cartesian distance of two (lat,lon) points = 2 sin(haversine/2), haversine = arccos(u.v) in [0,pi] "
+          "(chord_eq_chord_of_hav, haversine_eq_angle), hence Cartesian trees rank exactly like the haversine tree "
+          "(cartesian_knn_eq_haversine_knn); units: unit_roundtrip, planar_degrees, doc_* (flip/deg->rad for every tree/system/"
+          "in_radians combination), radius_unit_repaired. Tree cache: tree_reflects_request — after ANY request history the "
+          "wrapper handed back has the requested kind/system/metric and queries a tree built from them; "
+          "asis_cache_stale / asis_kd_radius_unit are the proved counterexamples for the snapshot (repaired by fixes 44934d88, "
+          "6a2163a0, 8b521b60). Tie to the code: differential run through Grid.get_ball_tree/get_kd_tree(...).query/query_radius on "
+          "generated grids (antimeridian, poles, single/batched, degrees/radians, k in 1..n, r>=0 incl. >180 deg, guards, all "
+          "ordered pairs + sampled longer histories of differently parameterised requests); the Lean driver computes the model "
+          "distances at Float and judges the implementation's indices with the decidable spec; reported distances are a float "
+          "clause (rel. tol 1e-7); near-ties (<1e-9) are dropped and counted."),
+    note=_TB + "Modelled, not verified: sklearn BallTree/KDTree (assumed = brute force, validated per case), IEEE/libm "
+         "evaluation of the metrics, NumPy squeeze/shape rules (canonicalised, not judged); element coordinates are taken as "
+         "the grid reports them (C04).",
+    technique="Lean 4 theorems (search spec refinement + uniqueness, real-analysis chord/haversine laws, cache state machine "
+              "invariant) + differential correspondence with Lean-evaluated spec",
+)
+
+CHECKS["C12"] = dict(
+    text=("Lean theorems over lists of ANY length (UxVerif.C12): the brute-force k-nearest oracle is correct (kNearest_minimal/valid/nodup/"
+          "length, kDists_sorted); nearest-neighbour: nn_is_argmin, nn_meets_spec (decidable spec nnSpecB reflected by nnSpecB_iff), "
+          "nn_identity_on_self / nnRow_identity (distinct source points => remapping onto the source's own elements is the identity; the chord "
+          "metric meets the hypotheses: chordSq_pos); IDW over every linear ordered field, every eps>0, every natural or real power>=0 "
+          "(natPow_ok, rpow_ok): idw_weights_nonneg, idw_weights_sum_one, idw_antitone, idw_between_min_max, idw_const, and end to end incl. "
+          "selection and gather idwAt_between_min_max / idwAt_const / idwAt_weights_meet_spec; chord_le_iff_arc_le (cartesian order = great-circle "
+          "order on unit vectors); remap_dims, remap_shape, kind_by_dim (element kind by dimension NAME), k_guard; as-is counterexamples "
+          "asis_kind_by_length, asis_single_destination_drops_axis, asis_idw_single_destination_raises, asis_k_guard_refuses_admissible with "
+          "partial theorems (snapshot defects repaired by fixes 9bf354d9, 6e6dffe2, 52d879b4). Tie: differential run through UxDataArray.remap on "
+          "generated grid pairs (n_node=n_face and n_node=n_edge grids, single-face destinations, file-supplied lon/lat and xyz centres, MPAS "
+          "sample, near-coincident and polar grids) x 3 source kinds x 3 destinations x 2 coordinate types x ranks 1..3 x k in 2..n x 6 powers: "
+          "the Lean driver brute-forces the (k) nearest over the grids' reported points, discards near-ties (<1e-9, counted) and evaluates "
+          "nnSpecB / convexity (withinB) on the implementation's output; one-hot data expose the implementation's weights, judged by weightsOkB "
+          "(support = the k nearest, >=0, sum 1, non-increasing) and compared with the model."),
+    note=_TB + "Modelled, not verified: sklearn BallTree (assumed = brute force, validated per case), haversine = great-circle angle (formula "
+         "identity not proved here; see C11), IEEE rounding (tolerances 1e-9 convexity/weights, 1e-6 model agreement), NumPy fancy "
+         "indexing/broadcasting, the literal eps=1e-6 is a model parameter (theorems hold for every eps>0). One known finding is rooted in "
+         "coordinates.py (C04).",
+    technique="Lean 4 theorems over a generic ordered-field model + differential correspondence with Lean-evaluated specs and Lean brute-force oracle",
+)
+
+CHECKS["C14"] = dict(
+    text=("Lean theorems (UxVerif.C14, any ordered field, all direction vectors): onArc_iff_cone (the exact predicate OnArc is 'on the "
+          "great circle and between the end points'), intersections_on_both / common_point_reported / disjoint_none / crossing_one / "
+          "intersections_length_le_one (the exact intersection list of two arcs on different great circles is exactly their common "
+          "points: none, or one), onArc_swap / meet_swap_ends / meet_swap_arcs / onArc_rotZ / meet_rotZ (answers unchanged by swapping "
+          "ends, swapping arcs, rotating about the polar axis), extreme_is_max / extreme_is_min with apex_bound, apex_attained, "
+          "endpoint_max (the closed form of extreme_gca_latitude selects the largest/smallest latitude over ALL points of the arc) and "
+          "code_param / code_dmax_iff (the code's d_a_max branch is 'apex strictly inside', node3 is the apex). The real "
+          "point_within_gca, gca_gca_intersection, extreme_gca_latitude are tied by a differential run on correctly rounded rational "
+          "unit vectors (generic, equator, meridian, through/at/near a pole, antimeridian; ends swapped, arcs swapped, rotated) whose "
+          "exact answer and >=1e-6 margin are computed by the Lean driver at Q; returned points are judged by Lean (nearArc, 1e-9) on "
+          "the exact value of the returned doubles. The snapshot's lon/lat logic of point_within_gca failed on pole-related arcs "
+          "(repaired by fix 87607001; as-is witnesses kept). Known findings: crossings missed when the candidate's plane residual "
+          "exceeds MACHINE_EPSILON (~0.7%), end point within 1.41e-4 rad of a pole snapped in extreme_gca_latitude."),
+    note=_TB + "Modelled, not verified: IEEE evaluation inside the three functions (only tested, on inputs >=1e-6 rad from every decision "
+         "boundary); latitude VALUE compared at ERROR_TOLERANCE / 4 ulp of sin(lat) (float clause, test level); the same-great-circle "
+         "branch of gca_gca_intersection and directed arcs are outside the property. Regenerated ERROR_TOLERANCE/MACHINE_EPSILON are "
+         "re-proved to lie far inside the margin each run (library_tolerances_below_margin).",
+    technique="Lean 4 theorems over an exact ordered-field model (executed at Q as the oracle) + differential correspondence with Lean-evaluated verdicts",
+)
